@@ -310,6 +310,11 @@ class Interp:
             if a.name != b.name:
                 return z3.BoolVal(False)
             return a.z == b.z
+        if isinstance(a, VOpaque) and isinstance(b, VObj) and isinstance(b.fields.get("__id"), VOpaque):
+            # an object with a ghost handle `__id: opaque[X]` compared with a handle taken out of a container of opaque[X]
+            return self.eq(a, b.fields["__id"])
+        if isinstance(b, VOpaque) and isinstance(a, VObj) and isinstance(a.fields.get("__id"), VOpaque):
+            return self.eq(a.fields["__id"], b)
         if isinstance(a, VObj) and isinstance(b, VObj):
             # identity; a snapshot (old(...), at_entry(...)) of an object keeps its oid
             return z3.BoolVal(a is b or a.oid == b.oid)
@@ -323,6 +328,9 @@ class Interp:
             if type(a) is type(b) and isinstance(a, VExt):
                 return z3.BoolVal(a.name == b.name)
             return z3.BoolVal(a is b)
+        if type(a).__name__ == "VNamedTupleClass" and type(b).__name__ == "VNamedTupleClass":
+            # namedtuple classes (module-level constants, re-created per lookup): the same class iff same name and fields
+            return z3.BoolVal(a.name == b.name and list(a.fields) == list(b.fields))
         return z3.BoolVal(False)
 
     def _num(self, v):
@@ -354,6 +362,9 @@ class Interp:
             return self.eq(a, b)
         if isinstance(a, VObj) and isinstance(b, VObj):
             return z3.BoolVal(a is b or a.oid == b.oid)
+        if (isinstance(a, VOpaque) and isinstance(b, VObj) and isinstance(b.fields.get("__id"), VOpaque)) or \
+                (isinstance(b, VOpaque) and isinstance(a, VObj) and isinstance(a.fields.get("__id"), VOpaque)):
+            return self.eq(a, b)
         if isinstance(a, VObj) or isinstance(b, VObj):
             return z3.BoolVal(a is b or (isinstance(a, VObj) and isinstance(b, VObj) and a.oid == b.oid))
         return self.eq(a, b)
